@@ -42,7 +42,10 @@ func isHandledSelectStmt(l *lexer, keyspace Identifier) (handled bool, stmt Stat
 	}
 
 	qualifyingKeyspace, table, t, err := parseQualifiedIdentifier(l)
-	if err != nil || (!keyspace.equal("system") && !qualifyingKeyspace.equal("system")) || !isSystemTable(table) {
+	if !qualifyingKeyspace.isEmpty() { // An explicit qualifier takes precedence over the connection's current keyspace
+		keyspace = qualifyingKeyspace
+	}
+	if err != nil || !keyspace.equal("system") || !isSystemTable(table) {
 		return false, nil, err
 	}
 
